@@ -52,11 +52,15 @@ Atoms ==
 HexTexts == {"", "00", "0000", "10", "1234", "3031", "0102", "0b01", "1e10", "c0ffee", "ABCDEF", "99999999999999999999"}
 UnionAtoms == {[kind |-> "unionhex", field |-> f, text |-> t] : f \in {"content", "kid", "kidunprot", "rcpkid"}, t \in HexTexts}
 
+\* one-character component-identifier parts: a letter, a digit, punctuation, a blank, a non-ASCII character (the raw character, not a
+\* wrapped text string), against longer strings (wrapped text)
+CidAtoms == {[kind |-> "cidpart", text |-> t] : t \in {"M", "z", "2", "0", "_", "#", " ", "é", "ab", "2a", "CAND_MFST"}}
+
 VARIABLES a
-Init == a \in Atoms \cup UnionAtoms
+Init == a \in Atoms \cup UnionAtoms \cup CidAtoms
 Next == UNCHANGED a
 Spec == Init /\ [][Next]_a
 AtomIsKnown == a.kind \in {"policycmd", "index", "indexint", "nest", "paramint", "param", "seqnum", "hashalg", "signalg", "kid",
-                           "comparator", "textkey", "member", "strlen", "unionhex"}
+                           "comparator", "textkey", "member", "strlen", "unionhex", "cidpart"}
 Emit == EMIT => PrintT("SCN " \o ToJson(a))
 =============================================================================
